@@ -596,6 +596,31 @@ VARIANTS += [
 ]
 # ---- fourth round: rules derived from the mutation sweep and the fourth batch of seeded changes
 VARIANTS += [
+    M("spfs-candidate-loop-break", SPFS, "                if conserv_segments < 0:\n                    # Not a subsequence of the parent synteny\n                    continue\n",
+      "                if conserv_segments < 0:\n                    # Not a subsequence of the parent synteny\n                    break\n", "ENUM-NO-TRUNCATION"),
+    M("thl-skip-dup-when-speciation-found", REC, "                _compute_thl_try_duplication_transfer(\n                    rec_input.species_lca,",
+      "                if not table[root_node][root_species].is_infinite():\n                    continue\n\n                _compute_thl_try_duplication_transfer(\n                    rec_input.species_lca,", "CANDIDATE-GUARDS"),
+    M("model-label-names-from-leaves", MODEL, "                while f\"O{next_object}\" in self.object_tree:", "                while f\"O{next_object}\" in {node.name for node in self.object_tree}:", "TREE-ITER-EXPLICIT", "LABEL-GUARD"),
+    M("uspfs-recipients-leaves-only", USPFS, "        for desc_species in species_lca.tree.traverse():", "        for desc_species in species_lca.tree:", "TREE-ITER-EXPLICIT"),
+    M("layout-escape-in-place", LAYOUT, "    # Propagate color feature downwards in the tree",
+      "    for root_gene in list(syntenies):\n        syntenies[root_gene] = [tex.escape(family) for family in syntenies[root_gene]]\n\n    # Propagate color feature downwards in the tree", "READONLY-INPUT"),
+    M("layout-synteny-species-width", LAYOUT, "                    params.event_label_width,\n                ).replace", "                    params.species_label_width,\n                ).replace", "WIDTH-VERBATIM"),
+    M("model-mapping-overridden-by-names", MODEL, "        if \"costs\" in data:\n            costs = {}",
+      "        if \"leaf_object_species\" in data:\n            leaf_object_species.update(get_species_mapping(object_tree, species_tree))\n\n        if \"costs\" in data:\n            costs = {}", "FIELD-SOURCE"),
+    M("thl-decode-grow-left-mapping", REC, "            yield ReconciliationOutput(\n                rec_input,\n                {\n                    root_object: root_species,\n                    **map_left.object_species,\n                    **map_right.object_species,\n                },\n            )\n\n\ndef reconcile_thl",
+      "            merged = map_left.object_species\n            merged.update(map_right.object_species)\n            merged[root_object] = root_species\n            yield ReconciliationOutput(rec_input, merged)\n\n\ndef reconcile_thl", "READONLY-DECODE"),
+    M("segdist-start-from-root-bit", "utils/subsequences.py", "    in_segm = not edges\n", "    in_segm = not edges and bool(parent & ~child & 1)\n", "SEGMENT-MACHINE"),
+    M("cli-cost-truncated", CLI, "    return eval(cost)  # pylint: disable=eval-used", "    return int(float(eval(cost)))  # pylint: disable=eval-used", "COST-NO-ROUNDING"),
+    M("uspfs-gain-first-last", USPFS, "        result[object_lca(*leaves)].add(family)", "        result[object_lca(sorted(leaves, key=id)[0], sorted(leaves, key=id)[-1])].add(family)", "GAIN-AT-LCA"),
+    M("uspfs-gain-sets-before-loop", USPFS, "        srec_input_bin.label_internal()\n        gain_sets = _compute_gain_sets(srec_input_bin)", "        srec_input_bin.label_internal()\n        gain_sets = _compute_gain_sets(srec_input)", "STALE-INPUT"),
+    M("triples-generic-deepcopy", TREES, "    leaves = [leaf.name for leaf in tree.get_leaves()]\n    tree = tree.copy()", "    leaves = [leaf.name for leaf in tree.get_leaves()]\n    tree = deepcopy(tree)", "COPY-FAITHFUL"),
+    M("model-output-hash-insertion-order", MODEL, "                tuple(sorted(serialize_tree_mapping(self.object_species).items())),", "                tuple(serialize_tree_mapping(self.object_species).items()),", "HASH-CANONICAL"),
+    M("topo-all-sorted-starts", TOPO, "    for node_from in starts:\n        next_starts = set(starts)", "    for node_from in sorted(starts):\n        next_starts = set(starts)", "NODE-OPAQUE"),
+    M("entry-update-preselect", DP, "        for candidate in candidates:\n            value = candidate.value", "        if is_any:\n            candidates = candidates[:1]\n\n        for candidate in candidates:\n            value = candidate.value", "UPDATE-ALL-CANDIDATES"),
+    T("twin-entry-update-materialise", DP, "        for candidate in candidates:\n            value = candidate.value", "        candidates = list(candidates)\n\n        for candidate in candidates:\n            value = candidate.value"),
+    M("spfs-non-root-complete-only", SPFS, "        allowed_species=lambda species, _: species.traverse(\"postorder\"),\n        allowed_syntenies=lambda ordering, obj: (\n            (subseq_complete(ordering),)\n            if obj == srec_input.object_tree",
+      "        allowed_species=lambda species, _: species.traverse(\"postorder\"),\n        allowed_syntenies=lambda ordering, obj: (\n            (subseq_complete(ordering),)\n            if obj != srec_input.object_tree", "MASK-RANGE"),
+    M("layout-pseudogene-by-species", "render/model.py", "class PseudoGene:  # pylint:disable=too-few-public-methods", "@dataclass(frozen=True)\nclass PseudoGene:  # pylint:disable=too-few-public-methods", "IDENTITY-KEYS"),
     M("thl-speciation-only-at-covering-species", REC, "                if not root_species.is_leaf():\n                    _compute_thl_try_speciation(",
       "                if not root_species.is_leaf() and root_species == rec_input.species_lca(*(rec_input.leaf_object_species[leaf] for leaf in root_node.iter_leaves())):\n                    _compute_thl_try_speciation(", "CANDIDATE-GUARDS"),
     M("spfs-skip-empty-looking-syntenies", SPFS, "                if conserv_segments < 0:\n                    # Not a subsequence of the parent synteny\n                    continue\n",
@@ -872,6 +897,8 @@ CANARY_RULES = (
     "FIELD-SOURCE", "SORT-KEY-ALIGNED", "ENTRY-OWNS-TAGS",
     "KEY-GUARD", "HASH-IDENTITY", "COST-GUARD", "COPY-FAITHFUL", "NAME-AS-KEY", "ENUM-NO-TRUNCATION", "SET-ALGEBRA-ARGS",
     "LEAF-MAP-DOMAIN", "WIDTH-VERBATIM", "TOPO-VERDICT", "ROOT-ORDER-SOURCE",
+    "CANDIDATE-GUARDS", "TREE-ITER-EXPLICIT", "STALE-INPUT", "HASH-CANONICAL", "NODE-OPAQUE", "UPDATE-ALL-CANDIDATES",
+    "COST-NO-ROUNDING", "MASK-RANGE", "GAIN-AT-LCA",
 )
 
 MEMO_CANARY = Variant(
